@@ -152,6 +152,19 @@ def combinators(ex, st, fr, name, args, dty):
                     term = inner.term if isinstance(inner, VSym) else inner.base.term
                     out.append((s2, VAgg(ty, nm, [VSym(('ref', ('field', term, 0, nm)))]), 'ok', ''))
         return out
+    if m in ('cloned', 'copied'):
+        out = []
+        for s2, nm, get in enum_split(ex, st, v, ty, names):
+            if nm == 'None':
+                out.append((s2, mk('Option', 'None'), 'ok', ''))
+            else:
+                r = get()
+                if isinstance(r, VRef):
+                    r = ex.load(s2, r.cell, r.path)
+                elif isinstance(r, VSym):
+                    r = VSym(r.term[1] if r.term[0] == 'ref' else ('deref', r.term))
+                out.append((s2, mk('Option', 'Some', r), 'ok', ''))
+        return out
     if m not in ('map', 'map_err', 'and_then', 'ok', 'err', 'unwrap_or', 'is_some_and', 'or_else', 'unwrap_or_else', 'unwrap_or_default'):
         return None
     out = []
@@ -451,6 +464,11 @@ def array_try_from(ex, st, fr, name, args, dty):
     return out
 
 
+@model(r'^<&\[u8\] as (std::convert::)?TryInto<\[u8; \d+\]>>::try_into$')
+def array_try_into(ex, st, fr, name, args, dty):
+    return array_try_from(ex, st, fr, name, args, dty)
+
+
 @model(r'core::num::<impl (u16|u32|u64)>::from_(le|be)_bytes$')
 def from_bytes(ex, st, fr, name, args, dty):
     m = re.search(r'<impl (u\d+)>::from_(le|be)_bytes$', strip_generics(name))
@@ -548,6 +566,36 @@ def prim_eq(ex, st, fr, name, args, dty):
     if name.strip().endswith('::ne'):
         e = z3.Not(e)
     return ok(st, VBool(e))
+
+
+@model(r' as (num_traits::)?FromPrimitive>::from_(u8|u16|u32|i8|i16|i32|usize|isize)$')
+def from_primitive_default(ex, st, fr, name, args, dty):
+    """num_traits default methods: from_uN(n) = from_u64(n as u64), from_iN(n) = from_i64(n as i64)"""
+    m = re.match(r'^(<.* as (?:num_traits::)?FromPrimitive>)::from_([ui])(\w+)$', strip_generics(name).strip())
+    v = args[0]
+    if not m or not isinstance(v, VInt):
+        return None
+    wide = VInt(z3.ZeroExt(64 - v.bits, v.e) if m.group(2) == 'u' else z3.SignExt(64 - v.bits, v.e), 64, m.group(2) == 'i') \
+        if v.bits < 64 else v
+    return ex.call_named(st, fr, '%s::from_%s64' % (m.group(1), m.group(2)), [wide], dty)
+
+
+@model(r'^<(.*) as (std::cmp::)?PartialEq(<.*>)?>::ne$')
+def ne_default(ex, st, fr, name, args, dty):
+    """PartialEq::ne default method = !eq (derived impls only define eq)"""
+    eq_name = name.strip()[:-2] + 'eq'
+    f, why = ex.prog.resolve_call(eq_name, 2, fr.func)
+    if f is None:
+        return None
+    out = []
+    for (s2, v, k, msg) in ex.call_named(st, fr, eq_name, args, 'bool'):
+        if k == 'ok' and isinstance(v, VBool):
+            out.append((s2, VBool(z3.Not(v.e)), k, msg))
+        elif k == 'ok':
+            return None
+        else:
+            out.append((s2, v, k, msg))
+    return out
 
 
 def names():
